@@ -44,6 +44,10 @@ fn process_commands(
                         Ok(message_opt) => match message_opt {
                             Some(message) => {
                                 responses.push(message);
+                                // A command may push more than one line (a write to a key this
+                                // same request watches is notified twice): the rest belongs to
+                                // this command too and must not become the entry of a later one
+                                while let Ok(Some(_)) = receiver.try_next() {}
                             }
                             _ => {
                                 responses.push("empty".to_string());
